@@ -190,6 +190,9 @@ func (w *W) runPath(s *State) (forks []*State) {
 			s.gs[s.cur].frames = s.frames
 			if !s.gs[s.cur].done {
 				s.gs[s.cur].blockedAt = s.progress
+				if r.why == "yield" {
+					s.gs[s.cur].blockedAt = -1
+				}
 			}
 			next := -1
 			for k := 1; k <= len(s.gs); k++ {
